@@ -227,6 +227,81 @@ def r6_item_anchors(ctx, rep):
     c09.r8_anchor_targets_exist(ctx, rep)
 
 
+def attr_shapes(py, attr: str) -> Dict[str, List[ast.AST]]:
+    """shape ('list' | 'scalar' | 'other') of every value assigned to self.<attr> in the entity classes"""
+    out: Dict[str, List[ast.AST]] = {"list": [], "scalar": [], "other": []}
+
+    def shape(value: Optional[ast.AST], ann: Optional[ast.AST]) -> str:
+        if ann is not None:
+            a = ast.unparse(ann)
+            if re.match(r"(typing\.)?(List|list|Sequence|Tuple|tuple)\b", a):
+                return "list"
+            if re.match(r"(typing\.)?Optional\[(?!List|list)", a) or re.match(r"Fortran\w+$", a):
+                return "scalar"
+        if isinstance(value, (ast.List, ast.ListComp, ast.Tuple)):
+            return "list"
+        if isinstance(value, ast.BinOp) and isinstance(value.op, ast.Add):
+            return "list"
+        if isinstance(value, ast.Call) and call_name(value).split(".")[-1] in ("list", "sorted", "filter_display", "filter_public"):
+            return "list"
+        if isinstance(value, ast.Constant) and value.value is None:
+            return "scalar"
+        if isinstance(value, ast.Subscript):          # a single element taken out of a table
+            return "scalar"
+        return "other"
+
+    for cname, ci in py.classes.items():
+        if not cname.startswith("Fortran") and cname != "ExternalBase":
+            continue
+        for n in ast.walk(ci.node):
+            if isinstance(n, ast.AnnAssign) and isinstance(n.target, ast.Attribute) and n.target.attr == attr \
+                    and isinstance(n.target.value, ast.Name) and n.target.value.id == "self":
+                out[shape(n.value, n.annotation)].append(n)
+            elif isinstance(n, ast.Assign):
+                for t in n.targets:
+                    if isinstance(t, ast.Attribute) and t.attr == attr and isinstance(t.value, ast.Name) and t.value.id == "self":
+                        out[shape(n.value, None)].append(n)
+    return out
+
+
+def r7_item_collections(ctx, rep):
+    """find_child hands the attribute named by SUBLINK_TYPES to _find_in_list, which iterates it.  Every such
+    attribute must be a sequence at every assignment - or find_child must wrap the single-valued ones in a list
+    display before iterating (`[[type:name(constructor)]]` raised TypeError: list(<FortranFunction>))."""
+    py = ctx.py
+    st = dict_const(py, "sourceform", "SUBLINK_TYPES")
+    fc = py.func("FortranBase.find_child")
+    # the variable handed to _find_in_list
+    calls = [c for c in py.walk_calls(fc) if call_name(c).endswith("_find_in_list")]
+    if len(calls) != 1 or not isinstance(calls[0].args[0], ast.Name):
+        raise AnalysisError("find_child: the _find_in_list(collection, name) call was not found")
+    var = calls[0].args[0].id
+    # is there a guard `isinstance(var, (list, ...))` / `var is None` whose branch rebinds var to a list display?
+    wraps = False
+    for n in ast.walk(fc):
+        if isinstance(n, ast.If) and "isinstance(" + var in ast.unparse(n.test):
+            for b in ast.walk(n):
+                if isinstance(b, ast.Assign) and any(isinstance(t, ast.Name) and t.id == var for t in b.targets):
+                    if any(isinstance(x, ast.List) and any(isinstance(e, ast.Name) and e.id == var for e in x.elts)
+                           for x in ast.walk(b.value)):
+                        wraps = True
+    raw_iter = [n for n in ast.walk(fc) if isinstance(n, ast.Call) and call_name(n) in ("list", "tuple", "iter")
+                and n.args and isinstance(n.args[0], ast.Call) and call_name(n.args[0]) == "getattr"]
+    for kind, attr in sorted(st.items()):
+        sh = attr_shapes(py, attr)
+        if not sh["list"] and not sh["scalar"]:
+            raise AnalysisError(f"no classified assignment to self.{attr} in the entity classes")
+        if not sh["scalar"]:
+            rep.ob(f"item kind {kind!r}: self.{attr} is a sequence at every assignment", True,
+                   f"{len(sh['list'])} sequence-valued assignment(s)", py.nloc(sh["list"][0]))
+            continue
+        ok = wraps and not raw_iter
+        rep.ob(f"item kind {kind!r}: single-valued self.{attr} is wrapped before it is searched", ok,
+               f"find_child rebinds `{var}` to a list display under an isinstance test" if ok else
+               f"self.{attr} holds a single entity (or None) ({py.nloc(sh['scalar'][0])}) but find_child iterates it "
+               f"directly: [[owner:name({kind})]] raises TypeError instead of linking", py.nloc(fc))
+
+
 RULES = [
     RuleSpec("C11.R6", r6_item_anchors, "[[owner:item]] targets: item anchors exist on the owner's page (shared with C09.R8)", floor=30),
     RuleSpec("C11.R1", r1_kinds, "documented kinds are the implemented kinds", floor=50),
@@ -234,4 +309,5 @@ RULES = [
     RuleSpec("C11.R3", r3_priority, "code spans win", floor=2),
     RuleSpec("C11.R4", r4_conversion_location, "every conversion has a location", floor=7),
     RuleSpec("C11.R5", r5_link_syntax, "reference syntax", floor=8),
+    RuleSpec("C11.R7", r7_item_collections, "item collections searched by find_child are sequences", floor=8),
 ]
